@@ -55,17 +55,22 @@ type LogFile struct {
 	FDE   *Ev
 	Prev  *Ev
 	Units []*Unit
+	Cksum *bool // non-nil: this file was written under another binlog_checksum setting than the log's (SET GLOBAL binlog_checksum rotates the log)
 }
 
 // Log is the whole master log.
 type Log struct {
 	Cfg   WireCfg
 	Files []*LogFile
+	ckOverride *bool // set while a file with its own checksum setting is laid out or served
 }
 
 // layoutEv builds the event's bytes at wire offset start and returns the end offset.
 func (l *Log) layoutEv(e *Ev, start uint32) uint32 {
 	c := l.Cfg
+	if l.ckOverride != nil {
+		c.Checksum = *l.ckOverride // the file being laid out / served has a binlog_checksum setting of its own
+	}
 	var typ byte
 	var body []byte
 	crc := c.Checksum
@@ -139,7 +144,9 @@ func (l *Log) layoutEv(e *Ev, start uint32) uint32 {
 
 // Layout assigns offsets and bytes to every event of the log.
 func (l *Log) Layout() {
+	defer func() { l.ckOverride = nil }()
 	for fi, f := range l.Files {
+		l.ckOverride = f.Cksum
 		off := f.Base + 4
 		f.FDE = &Ev{K: "fde", TS: 1500000000 + uint32(fi)}
 		off = l.layoutEv(f.FDE, off)
@@ -209,13 +216,18 @@ func (l *Log) Served(pos Pos) ([]*Ev, bool) {
 	var out []*Ev
 	mk := func(e *Ev, at uint32) *Ev { l.layoutEv(e, at); return e }
 	first := true
+	defer func() { l.ckOverride = nil }()
 	for ; fi < len(l.Files); fi++ {
 		f := l.Files[fi]
 		from := f.Base + 4
 		if first {
 			from = pos.Off
+			l.ckOverride = f.Cksum
 		}
+		// (the artificial ROTATE that announces the next file is framed like the file the dump thread has been reading: the
+		// new file's format description, which may announce another checksum algorithm, comes after it)
 		out = append(out, mk(&Ev{K: "rotate", Fake: true, RotFile: f.Name, RotPos: uint64(from)}, from))
+		l.ckOverride = f.Cksum
 		var evs []*Ev
 		evs = append(evs, f.FDE)
 		if f.Prev != nil {
